@@ -626,7 +626,6 @@ func (c04) Run(e *simkit.Env, cc any) {
 	}
 }
 
-
 // runC04Reuse: a relation requested on a registered name after a new process has claimed
 // it belongs to the new owner: the requester is not told about the previous owner's
 // termination, and is told exactly once when the new owner goes away.
